@@ -24,7 +24,7 @@ import secsgem.hsms  # noqa: E402
 def codec_part(res, rng, drv, big):
     # ---- header encode: boundary pool per field incl. out-of-range, every valid SType
     cases, lines, answers = [], [], []
-    n_enc = 3000 if big else 700
+    n_enc = 4000 if big else 1500
     for i in range(n_enc):
         vals = M.gen_fields(rng, out_of_range=True, stype=M.VALID_STYPES[i % len(M.VALID_STYPES)] if i < 90 else None)
         h = M.mk_header(vals)
@@ -55,7 +55,7 @@ def codec_part(res, rng, drv, big):
         for ty in range(256):
             raws.append(base[:5] + bytes([ty]) + base[6:])
     res.exhaustive_parts.append(f"HsmsHeader.decode over all 256 SType byte values on {len(bases)} headers (incl. invalid 8, 10..255)")
-    for _ in range(2000 if big else 400):
+    for _ in range(3000 if big else 1000):
         n = 10 if rng.chance(5, 6) else rng.choice([0, 1, 9, 11, 14, 20])
         raw = rng.bytes(n)
         if n == 10 and rng.chance(3, 4):
@@ -87,7 +87,7 @@ def codec_part(res, rng, drv, big):
     spec_cases, spec_lines, spec_answers = [], [], []
     blens = [0, 1, 2, 10, 243, 244, 245, 255, 256, 257, 4095, 65535, 65536]
     encoded = []
-    for i in range(900 if big else 220):
+    for i in range(1200 if big else 400):
         vals = M.gen_fields(rng, out_of_range=rng.chance(1, 8))
         n = rng.choice(blens) if rng.chance(1, 3) else rng.range(0, 300)
         if big and i % 200 == 7:
@@ -221,7 +221,7 @@ def feed_part(res, rng, drv, big):
     ]
     for chunks in scripted:
         cases.append({"kind": "feed", "chunks": [c.hex() for c in chunks]})
-    for i in range(700 if big else 160):
+    for i in range(1500 if big else 500):
         malformed = rng.chance(1, 3)
         frames = gen_stream(rng, rng.range(1, 5), malformed)
         stream = b"".join(frames)
@@ -332,7 +332,7 @@ def threads_part_body(res, rng, big):
     ep = Endpoint()
     n_scen = 0
     # every single cut position of a two-frame stream (exhaustive), several frame pairs
-    pairs = [gen_valid_frames(rng, 2) for _ in range(6 if big else 3)]
+    pairs = [gen_valid_frames(rng, 2) for _ in range(10 if big else 5)]
     pairs.append([([7, 0xFFFF, 0, 0, 0, 0, 5], b"", M.ref_frame(7, 0xFFFF, 0, 0, False, 0, 5, b"")),
                   ([0x01020304, 0, 1, 13, 1, 0, 0], b"\x01\x02\x03", M.ref_frame(0x01020304, 0, 1, 13, True, 0, 0, b"\x01\x02\x03"))])
     n_cut = 0
@@ -356,7 +356,7 @@ def threads_part_body(res, rng, big):
     res.exhaustive_parts.append(f"every single cut position of {len(pairs)} two-frame streams through the real threads: {n_cut} runs")
 
     # all single bytes, random partitions, many frames per segment
-    for i in range(60 if big else 14):
+    for i in range(80 if big else 24):
         frames = gen_valid_frames(rng, rng.range(1, 12 if big else 8), big_body=True)
         stream = b"".join(f[2] for f in frames)
         if len(stream) <= 600:
